@@ -759,6 +759,39 @@ def _callees(ctx, qual):
 
 
 _REACH_CACHE = {}
+_SYN_CACHE = {}
+
+
+def _syntactic_graph(repo):
+    """caller -> set(callee) over the whole package, from names resolved through the module's imports
+    (no evaluation): used for the reverse direction (who passes options INTO the anchored code)."""
+    import ast
+    if repo.root in _SYN_CACHE:
+        return _SYN_CACHE[repo.root]
+    g = {}
+    for fi in repo.all_functions():
+        out = set()
+        m = fi.module
+        for n in ast.walk(fi.node):
+            q = None
+            if isinstance(n, ast.Name) and isinstance(n.ctx, ast.Load):
+                t = repo.global_term(m, n.id)
+                q = repo.resolve(t[1])
+            elif isinstance(n, ast.Attribute) and isinstance(n.value, ast.Name):
+                if n.value.id == 'self' and fi.cls is not None:
+                    q = fi.cls + '.' + n.attr
+                else:
+                    t = repo.global_term(m, n.value.id)
+                    q = repo.resolve(t[1] + '.' + n.attr)
+            if q is None:
+                continue
+            if q in repo.funcs:
+                out.add(q)
+            elif q in repo.classes:
+                out.update(x.qualname for x in repo.class_methods(q).values())
+        g[fi.qualname] = out
+    _SYN_CACHE[repo.root] = g
+    return g
 
 
 def _auto(ctx, prop, lib):
@@ -782,6 +815,17 @@ def _auto(ctx, prop, lib):
                         seen.add(c)
                         nxt.append(c)
             frontier = [q for q in nxt if q in lib or os.path.relpath(ctx.repo.func(q).file, ctx.repo.root) in files]
+        # reverse direction: functions (anywhere in the package) that call into the anchored files - the
+        # plumbing that hands options to the anchored mechanisms (depth <= 2)
+        g = _syntactic_graph(ctx.repo)
+        anchored = set(seeds)
+        up = set()
+        frontier = set(anchored)
+        for depth in range(2):
+            nxt = {f for f, cs in g.items() if cs & frontier and f not in anchored and f not in up}
+            up |= nxt
+            frontier = nxt
+        seen |= up
         _REACH_CACHE[key] = seen
     reach = _REACH_CACHE[key]
     out = []
@@ -1284,4 +1328,17 @@ def ref(chromsizes, base_binsize, bins_per_tile):
     n_tiles = math.ceil(total_bp / tile_length_bp)
     n_zoom_levels = int(math.ceil(np.log2(n_tiles)))
     return n_zoom_levels
+''')
+
+
+_reg('cooler.util.bedslice', 'cooler.util',
+     'the region is parsed against the chromosome sizes (bounds, unknown names and open ends decided there); rows overlapping [start, end)', '''
+def ref(grouped, chromsizes, region):
+    chrom, start, end = parse_region(region, chromsizes)
+    result = grouped.get_group(chrom)
+    if start > 0 or end < chromsizes[chrom]:
+        lo = result["end"].values.searchsorted(start, side="right")
+        hi = lo + result["start"].values[lo:].searchsorted(end, side="left")
+        result = result.iloc[lo:hi]
+    return result
 ''')
